@@ -300,6 +300,7 @@ def printer_configs():
     from calmjs.parse import rules
     from calmjs.parse.unparsers import es5 as u
     from calmjs.parse.handlers import indentation, obfuscation
+    _init_own_layout()
     cfgs = [
         ('default', lambda: u.Unparser()),
         ('minimum', lambda: u.Unparser(rules=(rules.minimum(),))),
@@ -322,8 +323,34 @@ def printer_configs():
         ('rules(indent,indent)', lambda: u.Unparser(rules=(rules.indent(), rules.indent('\t')))),
         ('handlers.indentation.indent', lambda: u.Unparser(rules=(indentation.indent(),))),
         ('handlers.obfuscation.obfuscate', lambda: u.Unparser(rules=(rules.minify(), obfuscation.obfuscate()))),
+        # the constructor's own handler / hook options, alone and combined with rules that contribute the same kind
+        ('hooks=[noop]+rules(minify,obfuscate)', lambda: u.Unparser(rules=(rules.minify(), rules.obfuscate()),
+                                                                   prewalk_hooks=[_noop_hook])),
+        ('hooks=[noop]+rules(indent)', lambda: u.Unparser(rules=(rules.indent(),), prewalk_hooks=[_noop_hook, _noop_hook])),
+        ('hooks=[noop]', lambda: u.Unparser(prewalk_hooks=[_noop_hook])),
+        ('layout_handlers={}+deferrable_handlers={}+rules(indent,obfuscate)',
+         lambda: u.Unparser(rules=(rules.indent(), rules.obfuscate()), layout_handlers={}, deferrable_handlers={})),
+        ('layout_handlers=own+rules(minify)', lambda: u.Unparser(rules=(rules.minify(),), layout_handlers=dict(_OWN_LAYOUT),
+                                                                 prewalk_hooks=[_noop_hook])),
     ]
     return cfgs
+
+
+def _noop_hook(dispatcher, node):
+    return node
+
+
+def _own_space(dispatcher, node, before, after, prev):
+    from calmjs.parse.ruletypes import StreamFragment
+    yield StreamFragment(' ', None, None, None, None)
+
+
+_OWN_LAYOUT = {}
+
+
+def _init_own_layout():
+    from calmjs.parse.ruletypes import Space
+    _OWN_LAYOUT[Space] = _own_space
 
 
 PROBE_TEXTS = [
